@@ -14,3 +14,4 @@ def check(A):
         R.response_rules(A, fl, 'C14', parts=('errors',))
     C02.check(A, only_decode=True, prefix='C14')
     R.asgi_rules(A, 'C14', buffering_rule='C14')
+    R.asgi_read_rule(A, 'C14')
